@@ -181,7 +181,21 @@ func judge(c *Case, dir string) (v verdict) {
 	if err != nil {
 		if limit != 0 && rootCount > limit {
 			v.classes = append(v.classes, "scan-over-limit")
-			return // correctly refused
+			// The scan was refused, so no scan precedes these requests: they
+			// must be refused too and must not touch the root.
+			v.nt41 = true
+			if _, _, _, err := ep.Stage([]string{"zz-staged"}, [][]byte{c.digest(contentFor(1))}); err == nil {
+				v.c41 = fmt.Sprintf("staging accepted after a scan that was refused for exceeding the entry limit (%d entries, limit %d)", rootCount, limit)
+				return
+			}
+			if _, _, _, err := ep.Transition(ctx, []*core.Change{{Path: "zz-new", New: tree.D(nil)}}); err == nil {
+				v.c41 = "transition accepted after a scan that was refused for exceeding the entry limit"
+				return
+			}
+			if o, _ := disk.Observe(root); o.Render(true) != obs0.Render(true) {
+				v.c41 = "requests after a refused scan modified the root"
+			}
+			return
 		}
 		v.c41 = fmt.Sprintf("scan fails: %v", err)
 		return
